@@ -41,10 +41,10 @@ MUTANTS = [
      '                data = self._cached_constant_partial_vals[name]\n',
      '                data = self._cached_constant_partial_vals[name]\n                if getattr(self, "_alpha0", None) is None:\n                    self._alpha0 = inputs["alpha"].copy()\n                inputs = {"alpha": self._alpha0, "height_agl": inputs["height_agl"], mesh_name: inputs[mesh_name]}\n',
      "ground-effect Jacobian uses the alpha of the first linearisation"),
-    ("m09_mtxrhs_class_level_buffers", "C20", "aerodynamics/mtx_rhs.py",
-     '        self.mtx_n_n_3 = np.zeros((system_size, system_size, 3))\n        self.normals_n_3 = np.zeros((system_size, 3))\n',
-     '        cache = VLMMtxRHSComp.__dict__.get("_shared")\n        if cache is None or cache[0].shape[0] != system_size:\n            VLMMtxRHSComp._shared = cache = (np.zeros((system_size, system_size, 3)), np.zeros((system_size, 3)))\n        self.mtx_n_n_3, self.normals_n_3 = cache\n',
-     "work buffers shared by all instances of equal size: cross-Problem / cross-point leak between compute and compute_partials"),
+    ("m09_mtxrhs_stale_buffers_again", "C03", "aerodynamics/mtx_rhs.py",
+     '        self._fill_work_arrays(inputs)\n\n        ind_1 = 0\n', '        ind_1 = 0\n',
+     "re-introduces F3 (compute_partials reads buffers left by the last compute). The originally planned mutant - "
+     "buffers shared at class level - became harmless once F3 was repaired, because compute_partials now refills them"),
     ("m10_localstiff_module_array_normalised_inplace", "C20", "structures/local_stiff.py",
      '        outputs["local_stiff"] = 0.0\n',
      '        outputs["local_stiff"] = 0.0\n        if surface.get("exact_failure_constraint", False):\n            coeffs_y[:] = coeffs_y * (1.0 + 1e-9)\n',
